@@ -402,7 +402,8 @@ func run() int {
 					done[v.Assert] = true
 				} else {
 					if *flagVerbose {
-						fmt.Fprintf(os.Stderr, "replay of %s/%s did not reproduce:\n%s\n", hr.Spec.Name, v.Assert, out)
+						mb, _ := json.Marshal(v.Model)
+						fmt.Fprintf(os.Stderr, "replay of %s/%s did not reproduce (model %s):\n%s\n", hr.Spec.Name, v.Assert, mb, out)
 					}
 					hr.Unconfirmed = append(hr.Unconfirmed, v)
 				}
